@@ -265,3 +265,22 @@ def _cstring_default_via_ref_c19(ctx):
     except Exception:
         return False
     return _digits_default_via_ref(a) != _digits_default_via_ref(o)
+
+
+@finding('C12', 'error-swallowed-in-additions')
+def _c12_additions(ctx):
+    # ber.py:724, per.py:768, oer.py:412 encode_additions: 'except EncodeError: pass' drops any codec-side
+    # error raised below an extension addition (missing mandatory member, unknown ENUMERATED name)
+    c = ctx.case
+    if ctx.codec not in ('ber', 'der', 'per', 'uper', 'oer'):
+        return False
+    probe = c.get('probe', '')
+    return bool(c.get('under_addition')) and (probe.startswith('missing:') or probe == 'enum<-unknown-name')
+
+
+@finding('C12', 'path-recursive-dedup')
+def _c12_recursive_path(ctx):
+    # codecs/__init__.py add_location: a location equal to the previous one is dropped; below two or more
+    # recursive hops the same member object repeats, so codec-side errors report 'B.rec' for 'B.rec.rec'
+    c = ctx.case
+    return c.get('recursive_hops', 0) >= 2 and ctx.f.kind == 'wrong-path'
